@@ -6,7 +6,8 @@ from synq import canon, walk
 PROPERTY = "C25"
 TITLE = "Reported line and column are exactly right"
 NEEDS = ("syn",)
-TECHNIQUE = "static analysis: def-use wiring of the diagnostic header (start of the diagnostic's own range -> line_col -> +1) and of the LineIndex handed to the renderer (same text as the snippet)"
+TECHNIQUE = ("static analysis: def-use wiring of the diagnostic header (start of the diagnostic's own range -> line_col -> +1) and of the LineIndex handed to the renderer "
+             "(same text as the snippet; the parsed text is the text as given), abstract evaluation of LineIndex::new / line_col on sample and symbolic texts")
 EXPLANATION = (
     "Engine B (syntax def-use inside two functions and two callers): (a) in Diagnostic::display the pair handed to "
     "input_snippet as start_line/start_col is line_index.line_col(range.start()) with range = self.range() (and help.range() "
